@@ -74,6 +74,7 @@ from halmos.contract import (
     OP_BLOCKHASH,
     OP_BYTE,
     OP_CALL,
+    OP_CALLCODE,
     OP_CALLDATACOPY,
     OP_CALLDATALOAD,
     OP_CALLDATASIZE,
@@ -2372,11 +2373,15 @@ class SEVM:
         self.handle_insufficient_fund_case(pranked_caller, fund, message, ex, stack)
 
         def send_callvalue(condition: BoolRef | None = None) -> None:
-            # no balance update for CALLCODE which transfers to itself
             if op == OP_CALL:
                 # TODO: revert if context is static
                 # NOTE: we cannot use `to_alias` here because it could be None
                 self.transfer_value(ex, pranked_caller, to, fund, condition)
+
+            # CALLCODE transfers to itself: no net balance change, but the call
+            # still requires the balance to cover the value (a self-transfer asserts that)
+            elif op == OP_CALLCODE:
+                self.transfer_value(ex, pranked_caller, pranked_caller, fund, condition)
 
         def call_known(to: Address) -> None:
             # backup current state
